@@ -98,4 +98,19 @@ theorem C04_conforming_ack (cfg : Cfg) (s : St) (id : Nat) (e chunk : Bytes) (f 
   (C04_success_iff cfg s id e chunk f resp hs hack).2
     ⟨hw, _, _, Ack.unmarshal_complete .stream {} hp hk (fun _ => hx), hc⟩
 
+/-- why the empty chunk id has to be refused before the send: a response map without any `ack` entry decodes to the empty id, so
+for the empty id *every* ack-less map would count as its acknowledgement (found by the seed sweep of the tcp suite: a caller-built
+raw message whose chunk option is present and empty, answered by `{}`) -/
+theorem C04_empty_id_witness :
+    (send { requireAck := true } { session := some (0, true), conns := [{ closeErr := false }] } (some [0x90]) [] .none [0x80]).2 = .ok := by
+  decide
+
+/-- for every other id, success means the peer's response carried a non-empty `ack` entry equal to it -/
+theorem C04_success_nonempty (cfg : Cfg) (s : St) (id : Nat) (e chunk : Bytes) (f : WFault) (resp : Bytes)
+    (hs : s.session = some (id, true)) (hack : cfg.requireAck = true) (hne : chunk ≠ [])
+    (h : (send cfg s (some e) chunk f resp).2 = .ok) :
+    ∃ a r, Ack.unmarshal .stream {} resp = .ok a r ∧ a.ack = chunk ∧ a.ack ≠ [] := by
+  obtain ⟨_, a, r, ha, hc⟩ := (C04_success_iff cfg s id e chunk f resp hs hack).1 h
+  exact ⟨a, r, ha, hc, hc ▸ hne⟩
+
 end FV.Tcp
